@@ -24,6 +24,7 @@ import (
 	"fmt"
 	"reflect"
 	"strings"
+	"time"
 
 	"github.com/blinklabs-io/gouroboros/cbor"
 	"github.com/blinklabs-io/gouroboros/ledger"
@@ -32,7 +33,8 @@ import (
 )
 
 func init() {
-	register(&Prop{ID: "C01", Gen: genC01, Run: runC01})
+	// generous per-op deadline: verdicts must not depend on machine load
+	register(&Prop{ID: "C01", Gen: genC01, Run: runC01, Timeout: 3 * time.Minute})
 }
 
 func genC01(r *Rand, n int, tier string, emit func(string)) {
